@@ -53,6 +53,10 @@ class Property:
         return None (no opinion), "OK", "SKIP …" or "FAIL …"."""
         return None
 
+    def post(self, tier, corr_cases, impl_out):
+        """optional extra implementation-level checks; returns a list of (Case, "FAIL …") to be treated like oracle failures"""
+        return []
+
     def known(self, case, out, findings):
         """return the id of the known finding this failing case is an instance of, or None"""
         return None
@@ -142,6 +146,13 @@ def run(prop, tier, seed):
         if o.startswith("SKIP"):
             skipped += 1
             continue
+        fid = prop.known(c, o, findings)
+        if fid:
+            known_hits.setdefault(fid, []).append(c.line)
+        else:
+            failures.append((c, o))
+
+    for c, o in prop.post(tier, corr_cases, impl_out):
         fid = prop.known(c, o, findings)
         if fid:
             known_hits.setdefault(fid, []).append(c.line)
